@@ -161,13 +161,16 @@ fn c13_change_frequency_any_config() { change_frequency_case(any_config()) }
 // @timeout 3600
 // @mem 14
 // @functions KalmanFilter::steer, KalmanFilter::step, KalmanFilter::change_frequency, Duration::from_seconds, BaseFilter::absorb_offset_steer
-// @bounds estimator offset any non-NaN f64 with |offset| <= 10^9 s, frequency / delay any non-NaN f64, step threshold 1 ms, steer time 2 s, deadzone 0, bound / max steer symbolic; failing clock
+// @bounds estimator offset any non-NaN f64 with |offset| <= 10^9 s, frequency / delay any non-NaN f64, step threshold 1 ms, steer time 2 s, deadzone any value in [0, 4], bound / max steer symbolic; failing clock
 // @assume as c13_change_frequency
 #[kani::proof]
 #[kani::unwind(5)]
 #[kani::stub(InnerFilter::progress_filtertime, progress_filtertime_havoc)]
 fn c13_steer_and_step() {
-    let config = any_config();
+    let mut config = any_config();
+    // any non-negative deadzone: the deadzone shrinks the slew, it must never shrink a step
+    config.deadzone = any_finite();
+    kani::assume(config.deadzone >= 0.0 && config.deadzone <= 4.0);
     let ft = crate::verif_root::gen::any_time();
     let ret = crate::verif_root::gen::any_time();
     kani::assume(ret >= ft);
